@@ -546,4 +546,182 @@ Proof.
   exists more, kids. auto 8.
 Qed.
 
+(* ---------- the document ---------- *)
+Lemma pfv_header schema st v st' : parse_file_version true schema st = Val (Ret v st') ->
+  st' = st /\ hd [] (split_on 32 [] schema) = BS "http://autosar.org/schema/r4.0" /\ version_of_filename (xsd_of schema) = Some v.
+Proof.
+  unfold parse_file_version. cbv zeta. fold (xsd_of schema).
+  destruct (bytes_eqb (hd [] (split_on 32 [] schema)) (BS "http://autosar.org/schema/r4.0")) eqn:B; cbn [negb]; [|discriminate].
+  apply bytes_eqb_spec in B. destruct (version_of_filename (xsd_of schema)) as [v0|].
+  - intros [= <- <-]. auto.
+  - intros H. exfalso.
+    repeat match type of H with
+           | (if ?c then _ else _) _ = _ => destruct c
+           end; inv H as u1 s1 E1; exact (oe_strict_ret _ _ _ _ _ _ E1).
+Qed.
+
+Lemma pfh_header attrs st u st' : parse_file_header true tab_at attrs st = Val (Ret u st') ->
+  exists ver, st' = Parser.set_version st ver /\ HeaderOf tab_at attrs ver.
+Proof.
+  unfold parse_file_header, attr_id. intros H.
+  inv H as a1 s1 E1. inv E1 as r1 s1' E1'. apply lift_ret_inv in E1' as [N1 ->]. destruct r1 as [i1|]; [|discriminate E1]. injection E1 as <- <-.
+  inv H as a2 s2 E2. inv E2 as r2 s2' E2'. apply lift_ret_inv in E2' as [N2 ->]. destruct r2 as [i2|]; [|discriminate E2]. injection E2 as <- <-.
+  inv H as a3 s3 E3. inv E3 as r3 s3' E3'. apply lift_ret_inv in E3' as [N3 ->]. destruct r3 as [i3|]; [|discriminate E3]. injection E3 as <- <-.
+  destruct (attr_string i1 attrs) as [[xmlns|]|] eqn:A1; try discriminate H.
+  destruct (attr_string i2 attrs) as [[xsi|]|] eqn:A2; try discriminate H.
+  destruct (attr_string i3 attrs) as [[schema|]|] eqn:A3; try discriminate H.
+  destruct (negb (bytes_eqb xmlns (BS "http://autosar.org/schema/r4.0")) || negb (bytes_eqb xsi (BS "http://www.w3.org/2001/XMLSchema-instance"))) eqn:C;
+    [discriminate H|].
+  apply orb_false_iff in C as [C1 C2]. apply negb_false_iff, bytes_eqb_spec in C1, C2. subst xmlns xsi.
+  inv H as v s4 E4. apply pfv_header in E4 as (-> & HB & VF). injection H as _ <-.
+  exists v. split; [reflexivity|]. exists i1, i2, i3, schema.
+  assert (NO : forall s i, name_of tab_at s = Val (Some i) -> from_bytes tab_at s = Ok i).
+  { intros s0 i. unfold name_of. destruct (from_bytes tab_at s0); [intros [= ->]; reflexivity|discriminate|discriminate]. }
+  auto 10.
+Qed.
+
+Definition is_comment_ev (ev : event) : bool := match ev with EvComment _ => true | _ => false end.
+
+(* what has been read between the declaration and a token *)
+Definition PrologR (l0 : lstate) (tok : event) (lx : lstate) (pl : list xml) : Prop :=
+  exists bytes, TokR tok bytes (l_deferred lx) /\ l_rest l0 = render_items pl ++ bytes ++ l_rest lx /\ WfItems pl /\
+    Forall is_misc_or_comment pl /\ (pl <> [] -> is_xtext (last pl (XPI [])) = true -> is_chars tok = false).
+
+Lemma last_comment_app acc a b : last_comment acc (a ++ b) = last_comment (last_comment acc a) b.
+Proof. revert acc; induction a as [|x a IH]; intros acc; [reflexivity|]. destruct x; cbn [app last_comment]; apply IH. Qed.
+
+Lemma last_comment_misc acc sk : Forall is_misc sk -> last_comment acc sk = acc.
+Proof. induction 1 as [|x sk M _ IH]; [reflexivity|]. destruct x; cbn in M; try destruct M; cbn [last_comment]; exact IH. Qed.
+
+Lemma misc_moc sk : Forall is_misc sk -> Forall is_misc_or_comment sk.
+Proof. apply Forall_impl. intros [t|c|b|? ? ? ? ?]; cbn; auto. Qed.
+
+Lemma last_app_cons {A} (a : list A) x b d : last (a ++ x :: b) d = last (x :: b) d.
+Proof. apply last_app_ne. discriminate. Qed.
+
+Lemma skip_comments_reads f : forall stored tok st r st' l0 pl,
+  skip_comments f stored tok st = Val (Ret r st') -> PrologR l0 tok (p_lex st) pl -> stored = last_comment None pl ->
+  forall nm at_, snd r = EvBegin nm at_ ->
+  exists pl', PrologR l0 (snd r) (p_lex st') pl' /\ fst r = last_comment None pl' /\ p_version st' = p_version st.
+Proof.
+  induction f as [|f IH]; intros stored tok st r st' l0 pl H PR ST nm at_ SR; [discriminate H|]. cbn [skip_comments] in H.
+  destruct tok as [sa|n0 a0|n0|t0|c|]; try (injection H as <- <-; exists pl; auto).
+  inv H as t s1 E1. destruct (pnext_inv _ _ _ E1) as (line & l1 & NX & PL1 & V1).
+  destruct PR as (bytes & TK & RB & WP & MP & LP).
+  assert (TC : bytes = comment_text c ++ [62] /\ CommentOk c /\ l_deferred (p_lex st) = None) by (inversion TK; subst; auto).
+  destruct TC as (-> & CO & DF).
+  destruct (next_reads _ _ _ _ DF NX) as (sk & WSK & MSK & HM & LT & ALT).
+  destruct ALT as [(-> & _)|(bytes1 & TK1 & RB1 & CB1)].
+  { exfalso. destruct f as [|f']; [discriminate H|]. cbn [skip_comments] in H. injection H as <- _. discriminate SR. }
+  assert (PR1 : PrologR l0 t (p_lex s1) (pl ++ XComment c :: sk)).
+  { exists bytes1. rewrite PL1. split; [exact TK1|]. split.
+    - rewrite RB, RB1, render_items_app, render_items_cons. cbn [render]. rewrite <- !app_assoc. reflexivity.
+    - split.
+      + apply wfitems_app; [exact WP| |].
+        * constructor; [constructor; exact CO|exact WSK|discriminate].
+        * intros _ _. reflexivity.
+      + split; [apply Forall_app; split; [exact MP|constructor; [exact I|exact (misc_moc _ MSK)]]|].
+        intros _ L. rewrite last_app_cons in L. destruct sk as [|y sk']; [discriminate L|]. apply LT; [discriminate|]. exact L. }
+  assert (ST1 : Some (utf8_lossy c) = last_comment None (pl ++ XComment c :: sk)).
+  { rewrite last_comment_app. cbn [last_comment]. symmetry. apply last_comment_misc. exact MSK. }
+  destruct (IH _ _ _ _ _ l0 _ H PR1 ST1 nm at_ SR) as (pl' & PR' & FR & VV).
+  exists pl'. split; [exact PR'|]. split; [exact FR|]. congruence.
+Qed.
+
+Lemma lexer_new_bom bs : exists b : bool, bs = (if b then bom else []) ++ l_rest (lexer_new bs).
+Proof.
+  unfold lexer_new; cbn [l_rest].
+  assert (F : exists b : bool, bs = (if b then bom else []) ++ bs) by (exists false; reflexivity).
+  destruct bs as [|b0 [|b1 [|b2 [|b3 r]]]]; auto;
+  (destruct b0 as [|p]; auto; repeat (destruct p as [p|p|]; auto));
+  (destruct b1 as [|p]; auto; repeat (destruct p as [p|p|]; auto));
+  (destruct b2 as [|p]; auto; repeat (destruct p as [p|p|]; auto)).
+  exists true. reflexivity.
+Qed.
+
+Theorem load_faithful bs t st :
+  load true T tab_el tab_at tab_en check_fn float_parse bs = Val (Ret t st) ->
+  exists d, Reads bs d /\ InterpDoc T tab_el tab_at tab_en check_fn float_parse d (p_version st) t.
+Proof.
+  unfold load.
+  destruct (version_of_ident "Autosar_4_0_1") as [v401|] eqn:V401; [|destruct (elem T (autosar_element T)); discriminate].
+  destruct (elem T (autosar_element T)) as [e|site|] eqn:EE; try discriminate.
+  unfold parse_arxml. intros H.
+  set (st0 := init_pstate bs v401 (ed_name e)) in *.
+  inv H as ev s1 E1. destruct (pnext_inv _ _ _ E1) as (line1 & l1 & NX1 & PL1 & V1). destruct ev as [sa| | | | |]; try discriminate H.
+  assert (D0 : l_deferred (p_lex st0) = None) by reflexivity.
+  destruct (next_reads _ _ _ _ D0 NX1) as (sk0 & WSK0 & MSK0 & _ & _ & ALT0).
+  destruct ALT0 as [(EQ & _)|(bytes0 & TK0 & RB0 & _)]; [discriminate EQ|].
+  assert (TH : exists body, bytes0 = [60; 63] ++ body ++ [63; 62] /\ XmlDeclR body sa /\ l_deferred l1 = None) by (inversion TK0; subst; eauto).
+  destruct TH as (body & -> & XD & DL1).
+  inv H as u2 s2 E2. injection E2 as _ <-.
+  inv H as tok s3 E3. destruct (pnext_inv _ _ _ E3) as (line3 & l3 & NX3 & PL3 & V3). cbn [p_lex p_version set_standalone] in NX3, V3.
+  rewrite PL1 in NX3.
+  destruct (next_reads _ _ _ _ DL1 NX3) as (sk1 & WSK1 & MSK1 & _ & LT1 & ALT1).
+  inv H as r s4 E4. destruct r as [stored token].
+  destruct token as [|elemname attr_text| | | |]; try discriminate H.
+  assert (PRO : exists pl, PrologR l1 (EvBegin elemname attr_text) (p_lex s4) pl /\ stored = last_comment None pl /\ p_version s4 = p_version s3).
+  { destruct ALT1 as [(-> & _)|(bytes1 & TK1 & RB1 & _)].
+    - exfalso. cbn [skip_comments] in E4. injection E4 as _ EQ _. discriminate EQ.
+    - assert (PR1 : PrologR l1 tok (p_lex s3) sk1).
+      { exists bytes1. rewrite PL3. split; [exact TK1|]. split; [exact RB1|]. split; [exact WSK1|]. split; [exact (misc_moc _ MSK1)|exact LT1]. }
+      destruct (skip_comments_reads _ _ _ _ _ _ l1 sk1 E4 PR1 (eq_sym (last_comment_misc None sk1 MSK1)) elemname attr_text eq_refl) as (pl & PR & FR & VV).
+      exists pl. auto. }
+  destruct PRO as (pl & (bytesR & TKR & RBR & WPL & MPL & _) & STO & V4).
+  inv H as nmo s5 E5. apply lift_ret_inv in E5 as [NO ->]. inv H as an s6 E6.
+  assert (S6 : s6 = s4 /\ an = ed_name e).
+  { unfold autosar_name in E6. inv E6 as e0 sy Ey. apply lift_ret_inv in Ey as [EY ->]. rewrite EE in EY. injection EY as <-. injection E6 as <- <-. auto. }
+  destruct S6 as [-> ->]. destruct nmo as [n0|]; [|discriminate H]. destruct (n0 =? ed_name e) eqn:EN; [|discriminate H].
+  apply N.eqb_eq in EN. subst n0.
+  assert (FBR : from_bytes tab_el elemname = Ok (ed_name e)).
+  { unfold name_of in NO. destruct (from_bytes tab_el elemname); try discriminate NO. injection NO as ->. reflexivity. }
+  inv H as rt s7 E7. apply lift_ret_inv in E7 as [RT ->].
+  inv H as attributes s8 E8.
+  assert (TAG : exists inner (sc : bool), bytesR = [60] ++ inner ++ (if sc then [47; 62] else [62]) /\ no_byte 62 inner /\
+                  split_tag inner = (elemname, attr_text) /\ l_deferred (p_lex s4) = (if sc then Some elemname else None)).
+  { inversion TKR; subst; [exists inner, false|exists inner, true]; auto. }
+  destruct TAG as (inner & sc & EB & N62 & STG & DL4).
+  destruct (tag_reads inner elemname attr_text rt s4 attributes s8 (ed_name e) STG N62 E8 FBR)
+    as (atts & trail & EI & CN & WA & WT & F2 & L8 & V8).
+  inv H as u9 s9 E9. destruct (pfh_header _ _ _ _ E9) as (ver & -> & HDR).
+  inv H as root s10 E10.
+  destruct (parse_element_reads _ _ _ _ _ _ _ _ _ _ _ elemname E10 FBR) as (content & kids & -> & V10 & D10 & WK & IK & LR).
+  cbn [p_version p_lex Parser.set_version] in V10, IK, LR.
+  unfold LoopR in LR. cbn [p_lex Parser.set_version] in LR. rewrite L8, DL4 in LR.
+  inv H as u11 s11 E11. injection H as <- <-.
+  (* the end of the input *)
+  assert (END : exists sk2, WfItems sk2 /\ Forall is_misc sk2 /\ l_rest (p_lex s10) = render_items sk2 /\
+                            p_version s11 = p_version s10).
+  { unfold verify_end_of_input in E11. destruct (next (p_lex s10)) as [[lineE evE lE|lineE eE]| |] eqn:NXE; try discriminate E11.
+    destruct evE; try (destruct (oe_strict_ret _ _ _ _ _ _ E11)). injection E11 as _ <-.
+    destruct (next_reads _ _ _ _ D10 NXE) as (sk2 & W2 & M2 & _ & _ & ALT2).
+    destruct ALT2 as [(_ & R2 & _)|(b2 & TK2 & _)]; [|inversion TK2].
+    exists sk2. auto. }
+  destruct END as (sk2 & W2 & M2 & R2 & V11).
+  assert (SCK : sc = true -> kids = []) by (intros ->; exact (proj1 LR)).
+  assert (RXE : bytesR ++ l_rest (p_lex s4) = render (XElem elemname atts trail sc kids) ++ l_rest (p_lex s10)).
+  { rewrite render_elem, EB, EI. destruct sc.
+    - destruct LR as [_ LR]. rewrite LR. rewrite <- !app_assoc. reflexivity.
+    - destruct LR as [LR _]. rewrite LR. unfold etag. rewrite <- !app_assoc. reflexivity. }
+  (* the byte order mark *)
+  assert (BOM : exists b : bool, bs = (if b then bom else []) ++ l_rest (p_lex st0)) by (exact (lexer_new_bom bs)).
+  destruct BOM as (hasbom & EBS).
+  exists {| d_bom := hasbom; d_before := sk0; d_decl := body; d_standalone := sa; d_prolog := pl;
+            d_root := XElem elemname atts trail sc kids; d_after := sk2 |}.
+  split.
+  - split.
+    + unfold render_doc. cbn [d_bom d_before d_decl d_prolog d_root d_after]. rewrite EBS at 1. f_equal.
+      rewrite RB0. f_equal. rewrite <- !app_assoc. do 3 f_equal. cbn [app]. do 2 f_equal.
+      rewrite RBR, RXE, R2. reflexivity.
+    + unfold WfDoc. cbn [d_bom d_before d_decl d_standalone d_prolog d_root d_after].
+      split; [exact WSK0|]. split; [exact MSK0|]. split; [exact XD|]. split; [exact WPL|]. split; [exact MPL|].
+      split; [eauto 6|]. split; [constructor; assumption|]. auto.
+  - exists rt, e, v401. split; [exact RT|]. split; [exact EE|]. split; [exact V401|]. split; [reflexivity|].
+    exists elemname, atts, trail, sc, kids, (ed_name e), attributes, content, stored.
+    cbn [d_root d_prolog]. split; [reflexivity|]. split; [reflexivity|]. split; [exact FBR|].
+    assert (VV : p_version s4 = v401) by (rewrite V4, V3, V1; reflexivity).
+    rewrite VV in F2. split; [exact F2|].
+    assert (VF : p_version s11 = ver) by (rewrite V11, V10; reflexivity). rewrite VF. split; [exact HDR|]. split; [exact IK|exact STO].
+Qed.
+
 End Faithful.
